@@ -14,7 +14,11 @@ import VerifModel.Model.Data
     * `datasetOf`  : the dataset a table denotes.  Written from the description of the
       `Input` attributes (input.py:33-67), the file-format description of the wiki and the
       defaults the format description gives for absent columns:
-        - a missing cell is NaN, any other cell is its number;
+        - a missing cell is NaN, any other cell is its number — in the fields AND in the
+          coordinates: an entry of the time / lead time / location id / lat / lon / altitude /
+          threshold / quantile column that is missing is NaN in the dataset (`Data` then
+          verifies no case at a NaN time, lead time or location id: data.py:674-675 "Remove
+          nan values", theorem C10_missing_coordinate);
         - absent lat / lon / altitude read 0 ("Default values if columns not available",
           input.py:318-323); absent location ids are numbered 0,1,2,…;
         - units are wrapped in `$…$` for display unless they are `%` or unknown
@@ -60,22 +64,23 @@ structure CArr where
   data : List Cell
   deriving DecidableEq, Repr, Inhabited
 
-/-- the numbers a verification file carries; every optional part may be absent -/
+/-- the numbers a verification file carries; every optional part may be absent, every entry — of a
+field or of a coordinate column — may be missing (`none`) -/
 structure DenseTable where
-  times : List Rat
-  leads : List Rat
+  times : List Cell
+  leads : List Cell
   nloc : Nat
-  ids : Option (List Rat) := none
-  lats : Option (List Rat) := none
-  lons : Option (List Rat) := none
-  elevs : Option (List Rat) := none
+  ids : Option (List Cell) := none
+  lats : Option (List Cell) := none
+  lons : Option (List Cell) := none
+  elevs : Option (List Cell) := none
   obs : Option CArr := none
   fcst : Option CArr := none
   pit : Option CArr := none
   /-- thresholds t and P(X ≤ t) -/
-  prob : Option (List Rat × CArr) := none
+  prob : Option (List Cell × CArr) := none
   /-- quantile levels q and the q-quantiles -/
-  quant : Option (List Rat × CArr) := none
+  quant : Option (List Cell × CArr) := none
   ens : Option CArr := none
   others : List (String × CArr) := []
   name : Option String := none
@@ -92,9 +97,9 @@ def cellXR : Cell → XR
 def CArr.toArr (a : CArr) : Arr := ⟨a.dims, a.data.map cellXR⟩
 
 /-- the i-th entry of optional per-location metadata; absent metadata reads `dflt i` -/
-def metaCol (n : Nat) (o : Option (List Rat)) (dflt : Nat → Rat) : List XR :=
+def metaCol (n : Nat) (o : Option (List Cell)) (dflt : Nat → Rat) : List XR :=
   match o with
-  | some l => l.map XR.fin
+  | some l => l.map cellXR
   | none => (List.range n).map fun i => XR.fin (dflt i)
 
 /-- locations from four columns of equal length -/
@@ -109,15 +114,15 @@ def displayUnits : Option (List Char) → List Char
               else if u = ['%'] then ['%'] else '$' :: (u ++ ['$'])
 
 def datasetOf (T : DenseTable) : Dataset where
-  times := T.times.map XR.fin
-  leads := T.leads.map XR.fin
+  times := T.times.map cellXR
+  leads := T.leads.map cellXR
   locs := zipLocs (metaCol T.nloc T.ids fun i => (i : Rat)) (metaCol T.nloc T.lats fun _ => 0)
             (metaCol T.nloc T.lons fun _ => 0) (metaCol T.nloc T.elevs fun _ => 0)
   thresholds := match T.prob with
-    | some p => p.1.map XR.fin
+    | some p => p.1.map cellXR
     | none => []
   quantiles := match T.quant with
-    | some p => p.1.map XR.fin
+    | some p => p.1.map cellXR
     | none => []
   obs := T.obs.map CArr.toArr
   fcst := T.fcst.map CArr.toArr
@@ -135,25 +140,29 @@ def okNum (q : Rat) : Prop := q ≠ -999 ∧ q ≤ 10000000000000000198846248386
 
 def CArr.ok (a : CArr) : Prop := ∀ q, some q ∈ a.data → okNum q
 
+/-- a coordinate column: every entry that is present can be stored (entries may be missing) -/
+def colOk (l : List Cell) : Prop := ∀ q, some q ∈ l → okNum q
+
 /-- names a NetCDF reader treats specially; an "other field" has none of these names -/
 def reservedNames : List String :=
   ["obs", "fcst", "id", "location", "lat", "lon", "elev", "altitude", "hour", "date", "unixtime",
    "leadtime", "offset", "threshold", "cdf", "quantile", "x", "time", "pit", "ensemble"]
 
 /-- well-formed table: every number can be stored, location metadata has one entry per location,
-other fields have proper names -/
+other fields have proper names.  Nothing is required of the missing entries: any entry of any
+coordinate column may be missing. -/
 structure DenseTable.WF (T : DenseTable) : Prop where
-  times_ok : ∀ q ∈ T.times, okNum q
-  leads_ok : ∀ q ∈ T.leads, okNum q
-  ids_ok : ∀ l, T.ids = some l → l.length = T.nloc ∧ ∀ q ∈ l, okNum q
-  lats_ok : ∀ l, T.lats = some l → l.length = T.nloc ∧ ∀ q ∈ l, okNum q
-  lons_ok : ∀ l, T.lons = some l → l.length = T.nloc ∧ ∀ q ∈ l, okNum q
-  elevs_ok : ∀ l, T.elevs = some l → l.length = T.nloc ∧ ∀ q ∈ l, okNum q
+  times_ok : colOk T.times
+  leads_ok : colOk T.leads
+  ids_ok : ∀ l, T.ids = some l → l.length = T.nloc ∧ colOk l
+  lats_ok : ∀ l, T.lats = some l → l.length = T.nloc ∧ colOk l
+  lons_ok : ∀ l, T.lons = some l → l.length = T.nloc ∧ colOk l
+  elevs_ok : ∀ l, T.elevs = some l → l.length = T.nloc ∧ colOk l
   obs_ok : ∀ a, T.obs = some a → a.ok
   fcst_ok : ∀ a, T.fcst = some a → a.ok
   pit_ok : ∀ a, T.pit = some a → a.ok
-  prob_ok : ∀ p, T.prob = some p → (∀ q ∈ p.1, okNum q) ∧ p.2.ok
-  quant_ok : ∀ p, T.quant = some p → (∀ q ∈ p.1, okNum q) ∧ p.2.ok
+  prob_ok : ∀ p, T.prob = some p → colOk p.1 ∧ p.2.ok
+  quant_ok : ∀ p, T.quant = some p → colOk p.1 ∧ p.2.ok
   ens_ok : ∀ a, T.ens = some a → a.ok
   others_ok : ∀ p ∈ T.others, p.1 ∉ reservedNames ∧ p.2.ok
   others_nodup : (T.others.map (·.1)).Nodup
